@@ -1,7 +1,8 @@
 (* kind-service-names equals its recomputation in every state reached under a naming discipline:
    every instance key (node, service id) is always registered with the same name / kind / native flag
-   / destination, every name is used with one kind only, and a service-defaults entry of a name either
-   always or never carries a destination.  (Without the discipline: Refuted.v.) *)
+   / destination, and a service-defaults entry of a name either always or never carries a
+   destination.  A name may be shared by instances of several kinds (since /repo 0bb54ea).
+   (Without the discipline: Refuted.v.) *)
 From stdpp Require Import gmap strings.
 From RecordUpdate Require Import RecordSet.
 From Coq Require Import NArith.
@@ -39,11 +40,11 @@ Proof.
   destruct (match ns with Some (k, native) => _ | None => _ end) as [hc hn].
   apply foldl_skc. intros s' key. destruct (gws s !! key) as [w|]; [|apply same_skc_refl].
   destruct (_ && _); [apply same_skc_refl|]. destruct (_ && _); [apply same_skc_refl|].
-  apply update_gateway_service_skc.
+  destruct (gws s' !! _) as [listed|]; [destruct (negb (g_wild listed)); [apply same_skc_refl|]|]; apply update_gateway_service_skc.
 Qed.
 Lemma check_gateway_and_update_skc name kind s : same_skc (check_gateway_and_update name kind s) s.
 Proof.
-  unfold check_gateway_and_update. destruct (gws_of_service name s) as [|key l]; [apply same_skc_refl|].
+  unfold check_gateway_and_update. apply foldl_skc. intros s' key.
   destruct (gws s !! key); [apply update_gateway_service_skc|apply same_skc_refl].
 Qed.
 Lemma cleanup_gateway_wildcards_skc name cd s : same_skc (cleanup_gateway_wildcards name cd s) s.
@@ -102,7 +103,6 @@ Proof. apply free_vip_skc. Qed.
 (* ---------- the discipline ---------- *)
 Record discipline := Discipline {
   d_def : string * string -> string * skind * bool * string;  (* instance key -> name, kind, native, destination *)
-  d_kind : string -> skind;                                   (* the one kind a name is used with *)
   d_dest : string -> bool                                     (* does the name's service-defaults entry carry a destination *)
 }.
 
@@ -111,7 +111,7 @@ Variable D : discipline.
 
 Definition fields (v : svc) : string * skind * bool * string := (sv_name v, sv_kind v, sv_native v, sv_dest v).
 Definition req_ok (nd : string) (r : svcreq) : Prop :=
-  d_def D (nd, sr_id r) = (sr_name r, sr_kind r, sr_native r, sr_dest r) /\ d_kind D (sr_name r) = sr_kind r.
+  d_def D (nd, sr_id r) = (sr_name r, sr_kind r, sr_native r, sr_dest r).
 Definition op_ok (op : txnop) : Prop :=
   match op with
   | TService VSet nd r | TService VCAS nd r => req_ok nd r
@@ -127,7 +127,7 @@ Definition cmd_ok (c : cmd) : Prop :=
 
 (* the invariant *)
 Definition Disc (s : st) : Prop :=
-  (forall k v, services s !! k = Some v -> fields v = d_def D k /\ d_kind D (sv_name v) = sv_kind v) /\
+  (forall k v, services s !! k = Some v -> fields v = d_def D k) /\
   (forall k n c, confs s !! (k, n) = Some c -> k = conf_kind c /\ (forall d, c = CDefaults d -> d = d_dest D n)).
 
 Definition justified (s : st) (p : string * string) : Prop :=
@@ -176,6 +176,18 @@ Proof. unfold has_connect_instance. rewrite bool_decide_eq_true. unfold map_Exis
 Lemma has_connect_instance_false name s :
   has_connect_instance name s = false <-> ~ exists k v, services s !! k = Some v /\ connect_name v = Some name.
 Proof. rewrite <- has_connect_instance_true. destruct (has_connect_instance name s); split; congruence. Qed.
+
+Lemma has_instance_kind_true name k s :
+  has_instance_kind name k s = true <-> exists key v, services s !! key = Some v /\ sv_name v = name /\ sv_kind v = k.
+Proof. unfold has_instance_kind. rewrite bool_decide_eq_true. unfold map_Exists. reflexivity. Qed.
+Lemma has_instance_kind_false name k s :
+  has_instance_kind name k s = false <-> ~ exists key v, services s !! key = Some v /\ sv_name v = name /\ sv_kind v = k.
+Proof. rewrite <- has_instance_kind_true. destruct (has_instance_kind name k s); split; congruence. Qed.
+Lemma has_instance_kind_instance name k s : has_instance name s = false -> has_instance_kind name k s = false.
+Proof.
+  intros H. apply has_instance_kind_false. intros (key & v & Hv & Hn & _).
+  apply has_instance_false in H. apply H. eauto.
+Qed.
 
 Lemma has_instance_services a b name : services a = services b -> has_instance name a = has_instance name b.
 Proof. intros H. unfold has_instance. rewrite H. reflexivity. Qed.
@@ -231,12 +243,12 @@ Lemma J_register nd r (s s7 : st) vip c m :
   (forall x, services s !! (nd, sr_id r) = Some x -> True) ->
   J (s7 <| services ::= <[(nd, sr_id r) := row_of r vip c m]> |>).
 Proof.
-  intros [Hdef Hkind] [[D1 D2] HK] Hs Hc Hk _. set (key := (nd, sr_id r)). set (v' := row_of r vip c m).
+  intros Hdef [[D1 D2] HK] Hs Hc Hk _. set (key := (nd, sr_id r)). set (v' := row_of r vip c m).
   assert (Hold : forall x, services s !! key = Some x -> fields x = fields v').
-  { intros x Hx. destruct (D1 key x Hx) as [Hf _]. rewrite Hf. subst key. rewrite Hdef. reflexivity. }
+  { intros x Hx. rewrite (D1 key x Hx). subst key. rewrite Hdef. reflexivity. }
   split; [split|].
   - intros k v Hv. cbn in Hv. destruct (decide (k = key)) as [->|Hne].
-    + rewrite lookup_insert in Hv. injection Hv as <-. split; [symmetry; exact Hdef|exact Hkind].
+    + rewrite lookup_insert in Hv. injection Hv as <-. symmetry; exact Hdef.
     + rewrite lookup_insert_ne in Hv by congruence. rewrite Hs in Hv. apply D1; exact Hv.
   - intros k n cf Hcf. cbn in Hcf. rewrite Hc in Hcf. apply D2; exact Hcf.
   - unfold KN in *. intros p. change (ksn (s7 <| services ::= <[key := v']> |>)) with (ksn s7). rewrite Hk, elem_of_union, (HK p). split.
@@ -270,9 +282,9 @@ Lemma J_register_same nd r (s s7 : st) x :
 Proof.
   intros Hreq HJ Hs Hc Hk Hx.
   pose proof (J_register nd r s s7 (sv_vip x) (sv_create x) (sv_modify x) Hreq HJ Hs Hc Hk (fun _ _ => I)) as H.
-  destruct Hreq as [Hdef Hkind]. destruct HJ as [[D1 D2] HK].
+  pose proof Hreq as Hdef. destruct HJ as [[D1 D2] HK].
   assert (Hf : fields x = fields (row_of r (sv_vip x) (sv_create x) (sv_modify x))).
-  { destruct (D1 _ x Hx) as [Hf _]. rewrite Hf, Hdef. reflexivity. }
+  { rewrite (D1 _ x Hx), Hdef. reflexivity. }
   (* J only reads the fields of a row *)
   destruct H as [[E1 E2] EK]. split; [split|].
   - intros k v Hv. rewrite Hs in Hv. apply D1; exact Hv.
@@ -353,11 +365,14 @@ Proof.
   { destruct H1 as (H1s & H1c & H1k). destruct (cleanup_mesh_topology_skc nd sid v (s1 <| services ::= delete key |>)) as (A1 & A2 & A3).
     subst s3. rewrite A1, A2, A3. cbn. rewrite H1s, H1c, H1k. repeat split. }
   clearbody s3. destruct H3 as (H3s & H3c & H3k).
-  set (A := if has_instance (sv_name v) s3 then (∅ : gset (string * string)) else {[ (kind_str (sv_kind v), sv_name v) ]}).
-  set (s4 := if has_instance (sv_name v) s3 then s3 else _).
+  set (A := if has_instance_kind (sv_name v) (sv_kind v) s3 then (∅ : gset (string * string)) else {[ (kind_str (sv_kind v), sv_name v) ]}).
+  set (s4 := if has_instance (sv_name v) s3 then (if has_instance_kind (sv_name v) (sv_kind v) s3 then s3 else _) else _).
   assert (H4 : services s4 = delete key (services s) /\ confs s4 = confs s /\ ksn s4 = ksn s ∖ A).
-  { subst s4 A. destruct (has_instance (sv_name v) s3); [rewrite H3s, H3c, H3k; repeat split; set_solver|].
-    destruct (free_vip_skc (sv_name v) s3) as (F1 & F2 & F3). cbn. rewrite F1, F2, F3, H3s, H3c, H3k. repeat split. }
+  { subst s4 A. destruct (has_instance (sv_name v) s3) eqn:Ehi.
+    - destruct (has_instance_kind (sv_name v) (sv_kind v) s3); [rewrite H3s, H3c, H3k; repeat split; set_solver|].
+      cbn. rewrite H3s, H3c, H3k. repeat split.
+    - rewrite (has_instance_kind_instance _ (sv_kind v) _ Ehi).
+      destruct (free_vip_skc (sv_name v) s3) as (F1 & F2 & F3). cbn. rewrite F1, F2, F3, H3s, H3c, H3k. repeat split. }
   clearbody s4. destruct H4 as (H4s & H4c & H4k).
   set (B := match connect_name v with
             | Some sn => if has_connect_instance sn s4 then (∅ : gset (string * string)) else {[ (connect_enabled, sn) ]}
@@ -372,11 +387,13 @@ Proof.
   apply (J_skc _ s5 (cleanup_gateway_wildcards_skc _ _ _)).
   (* the facts the two tests established *)
   assert (HA : forall p, p ∈ A -> p = (kind_str (sv_kind v), sv_name v) /\
-                 ~ exists k x, delete key (services s) !! k = Some x /\ sv_name x = sv_name v).
-  { subst A. intros p Hp. destruct (has_instance (sv_name v) s3) eqn:Eh; [set_solver|].
-    apply elem_of_singleton in Hp. split; [exact Hp|]. apply has_instance_false in Eh. rewrite H3s in Eh. exact Eh. }
-  assert (HA' : (kind_str (sv_kind v), sv_name v) ∉ A -> exists k x, delete key (services s) !! k = Some x /\ sv_name x = sv_name v).
-  { subst A. destruct (has_instance (sv_name v) s3) eqn:Eh; [|set_solver]. intros _. apply has_instance_true in Eh. rewrite H3s in Eh. exact Eh. }
+                 ~ exists k x, delete key (services s) !! k = Some x /\ sv_name x = sv_name v /\ sv_kind x = sv_kind v).
+  { subst A. intros p Hp. destruct (has_instance_kind (sv_name v) (sv_kind v) s3) eqn:Eh; [set_solver|].
+    apply elem_of_singleton in Hp. split; [exact Hp|]. apply has_instance_kind_false in Eh. rewrite H3s in Eh. exact Eh. }
+  assert (HA' : (kind_str (sv_kind v), sv_name v) ∉ A ->
+                exists k x, delete key (services s) !! k = Some x /\ sv_name x = sv_name v /\ sv_kind x = sv_kind v).
+  { subst A. destruct (has_instance_kind (sv_name v) (sv_kind v) s3) eqn:Eh; [|set_solver]. intros _.
+    apply has_instance_kind_true in Eh. rewrite H3s in Eh. exact Eh. }
   assert (HB : forall p, p ∈ B -> exists sn, connect_name v = Some sn /\ p = (connect_enabled, sn) /\
                  ~ exists k x, delete key (services s) !! k = Some x /\ connect_name x = Some sn).
   { subst B. intros p Hp. destruct (connect_name v) as [sn|]; [|set_solver].
@@ -393,10 +410,8 @@ Proof.
     + intros [[Hj HnA] HnB]. destruct Hj as [(k & x & Hx & Hp1 & Hp2)|[(Hp1 & Hp2 & k & x & Hx & Hcn)|Hcf]].
       * left. destruct (decide (k = key)) as [->|Hne].
         -- assert (x = v) by (unfold key in Hx; congruence). subst x.
-           destruct (HA' ltac:(destruct p; cbn in *; subst; exact HnA)) as (k2 & x2 & Hx2 & Hn2).
-           exists k2, x2. split; [exact Hx2|]. apply lookup_delete_Some in Hx2 as [_ Hx2].
-           destruct (D1 _ _ Hx2) as [_ Hk2]. destruct (D1 _ _ Ev) as [_ Hkv].
-           split; [rewrite <- Hp1; f_equal; rewrite <- Hk2, <- Hkv, Hn2; reflexivity|congruence].
+           destruct (HA' ltac:(destruct p; cbn in *; subst; exact HnA)) as (k2 & x2 & Hx2 & Hn2 & Hk2).
+           exists k2, x2. split; [exact Hx2|]. split; [rewrite <- Hp1, Hk2; reflexivity|congruence].
         -- exists k, x. split; [rewrite lookup_delete_ne by congruence; exact Hx|split; assumption].
       * right; left. split; [exact Hp1|]. split; [exact Hp2|]. destruct (decide (k = key)) as [->|Hne].
         -- assert (x = v) by (unfold key in Hx; congruence). subst x.
@@ -409,8 +424,8 @@ Proof.
         -- right; left. apply lookup_delete_Some in Hx as [_ Hx]. eauto 10.
         -- right; right. exact Hcf.
       * intros HpA. destruct (HA p HpA) as [-> Hno]. cbn in Hj.
-        destruct Hj as [(k & x & Hx & _ & Hn)|[(Hp1 & _)|(Hp1 & _)]].
-        -- apply Hno. eauto.
+        destruct Hj as [(k & x & Hx & Hkd & Hn)|[(Hp1 & _)|(Hp1 & _)]].
+        -- apply Hno. exists k, x. split; [exact Hx|]. split; [exact Hn|apply kind_str_inj; exact Hkd].
         -- destruct (kind_str_not_special (sv_kind v)) as [Hx _]. contradiction.
         -- destruct (kind_str_not_special (sv_kind v)) as [_ Hx]. contradiction.
       * intros HpB. destruct (HB p HpB) as (sn & Hsn & -> & Hno). cbn in Hj.
@@ -702,15 +717,16 @@ Proof.
 Qed.
 
 (* a discipline and a history under it: a service, its sidecar proxy, a connect-native service on
-   another node, a destination, a wildcard terminating gateway; then the plain instance, the node of
-   the native service and the destination go away again *)
+   another node, a destination, a wildcard terminating gateway, a proxy registered under the NAME of
+   the service "web" (a name shared by two kinds); then the plain instance, the node of the native
+   service, the destination and the second proxy go away again *)
 Definition example_discipline : discipline :=
   Discipline
     (fun k => if bool_decide (k = ("n1", "s1")) then ("web", KTypical, false, "")
               else if bool_decide (k = ("n1", "s2")) then ("web-proxy", KProxy, false, "web")
               else if bool_decide (k = ("n2", "s1")) then ("db", KTypical, true, "")
+              else if bool_decide (k = ("n3", "s1")) then ("web", KProxy, false, "db")   (* a proxy named like the service "web" *)
               else ("", KTypical, false, ""))
-    (fun n => if bool_decide (n = "web-proxy") then KProxy else KTypical)
     (fun n => bool_decide (n = "ext")).
 
 Definition kn_example_log : list (N * cmd) :=
@@ -722,9 +738,11 @@ Definition kn_example_log : list (N * cmd) :=
     (7, Txn [TService VSet "n2" (SvcReq "s1" "db" KTypical true "" 80 [] false 0)]);
     (8, ConfSet "ext" (CDefaults true));
     (9, ConfSet "tgw" (CTermGW ["*"]));
-    (10, Deregister "n1" "s1" "");
-    (11, Deregister "n2" "" "");
-    (12, ConfDelete "service-defaults" "ext") ].
+    (10, Register "n3" "" 3 false (Some (SvcReq "s1" "web" KProxy false "db" 82 [] true 0)) []);
+    (11, Deregister "n1" "s1" "");
+    (12, Deregister "n2" "" "");
+    (13, ConfDelete "service-defaults" "ext");
+    (14, Deregister "n3" "" "") ].
 
 Example kn_example :
   CReachD example_discipline (run (take 8%nat kn_example_log) st0).1 /\
